@@ -33,7 +33,7 @@ def run(ctx):
             pc = probes.singles(probes.small_posit_probes(pty) if ctx.tier == 'quick' else probes.posit_probes(pty))
             st = run_cells(ctx, prog, 'GCR', '%s::%s' % (pty.name, name), path,
                            lambda cell, pty=pty: [posit_arg(pty, cell[0][0], cell[0][1], 0), posit_arg(pty, cell[1][0], cell[1][1], 1)],
-                           [pc, pc], posit_binary_spec(pty, f), pty.bits, max_product=40000)
+                           [pc, pc], posit_binary_spec(pty, f), pty.bits, max_product=200000)
             ctx.count('probe_cells', st['cells'])
             # rounding matrix: every result scale x rounding situation (exact / below / tie even / tie odd / above / carry-out), directed construction
             pts = probes.op_probes(pty, name, 1 if ctx.tier == 'quick' else 2)
